@@ -44,9 +44,9 @@ thread_local! {
 /// Runs `f` (code under test) with panics caught and silenced; panics outside
 /// such a region are harness bugs and are printed.
 pub fn guarded<T>(f: impl FnOnce() -> T) -> Result<T, String> {
-    IN_SUT.with(|g| g.set(true));
+    let before = IN_SUT.with(|g| g.replace(true));
     let r = catch_unwind(AssertUnwindSafe(f));
-    IN_SUT.with(|g| g.set(false));
+    IN_SUT.with(|g| g.set(before));
     r.map_err(|_| take_panic_message())
 }
 
